@@ -1,81 +1,351 @@
 package sx
 
-// Sequentialised goroutines: `go f()` is queued and run when the spawning
-// goroutine blocks or finishes; channels are FIFO queues. Exactly one schedule
-// is explored (plus harness-selected variants); see DESIGN.md.
+// Goroutines as coroutines: every `go f()` of the code under analysis gets its
+// own (real) goroutine, but exactly one of them runs at any time; control is
+// handed over only where the running goroutine blocks (channel operation,
+// select, WaitGroup.Wait, Mutex.Lock) or ends, or at a spawn when the schedule
+// policy says so. Which runnable goroutine continues is decided by the
+// schedule policy: deterministic (FIFO / LIFO / spawned-first) or, when the
+// harness asks for it, a fork of the exploration (one path per choice, bounded
+// by a switch budget). Channels have their Go capacity semantics: a send on a
+// full (or unbuffered) channel blocks until a receiver has taken the value.
+// See DESIGN.md 11.6.
 
 import (
+	"fmt"
 	"go/types"
+	"os"
 
 	"golang.org/x/tools/go/ssa"
 )
 
-type pendingGo struct {
-	fn   value
-	args []value
+var schedTrace = os.Getenv("GOSMT_SCHEDTRACE") != ""
+
+type gor struct {
+	id       int
+	resume   chan struct{}
+	started  bool
+	done     bool
+	ready    func() bool // nil: runnable; otherwise blocked until ready()
+	what     string      // what it is blocked on (for deadlock reports)
+	recvWait []*channel  // channels it is blocked receiving on
+	idle     bool        // runs only when nothing else can (a slow consumer, a long sleep)
+	fn       value
+	args     []value
 }
+
+// gorKill unwinds a parked goroutine when its path is over.
+type gorKill struct{}
+
+// gorPanic carries an unrecovered panic of a spawned goroutine to the path runner.
+type gorPanic struct{ tp targetPanic }
 
 type scheduler struct {
-	i       *interpreter
-	pending []pendingGo
-	running int
+	i        *interpreter
+	gors     []*gor
+	cur      *gor
+	fatal    interface{}
+	killing  bool
+	draining bool
+	killed   chan struct{}
+	// schedule policy: 0 FIFO, 1 LIFO, 2 spawned goroutine runs first;
+	// choose > 0: the next `choose` scheduling decisions with more than one
+	// candidate fork the exploration
+	policy int
+	choose int
 }
 
-func newScheduler(i *interpreter) *scheduler { return &scheduler{i: i} }
+func newScheduler(i *interpreter) *scheduler {
+	main := &gor{id: 0, resume: make(chan struct{}, 1), started: true}
+	return &scheduler{i: i, gors: []*gor{main}, cur: main, killed: make(chan struct{}, 1)}
+}
 
 func (i *interpreter) spawn(fr *frame, instr *ssa.Go, fn value, args []value) {
 	if i.initDepth > 0 {
 		return // goroutines started by package initialisers (runtime helpers) are not part of any harness
 	}
-	i.sched.pending = append(i.sched.pending, pendingGo{fn, args})
+	s := i.sched
+	live := 0
+	for _, g := range s.gors {
+		if !g.done {
+			live++
+		}
+	}
+	if live > 64 || len(s.gors) > 4096 {
+		unsup("more than 64 live goroutines (or 4096 spawned)")
+	}
+	if schedTrace {
+		fmt.Fprintf(os.Stderr, "[sched] g%d spawns g%d at %s (live %d)\n", s.cur.id, len(s.gors), i.posOf(instr), live)
+	}
+	g := &gor{id: len(s.gors), resume: make(chan struct{}, 1), fn: fn, args: args}
+	s.gors = append(s.gors, g)
+	if s.policy == 2 {
+		s.yieldTo(g)
+	}
 }
 
-// runPending runs queued goroutines to completion (each must not block on
-// something only the current goroutine can provide).
-func (s *scheduler) runPending() bool {
-	if len(s.pending) == 0 {
-		return false
+// runnable goroutines other than `except`, in policy order.
+func (s *scheduler) candidates(except *gor) []*gor {
+	var out []*gor
+	for _, g := range s.gors {
+		if g == except || g.done {
+			continue
+		}
+		if g.ready == nil || g.ready() {
+			out = append(out, g)
+		}
 	}
-	if s.running > 8 {
-		unsup("goroutine nesting too deep (blocked goroutines waiting on each other)")
+	if s.policy == 1 {
+		for a, b := 0, len(out)-1; a < b; a, b = a+1, b-1 {
+			out[a], out[b] = out[b], out[a]
+		}
 	}
-	g := s.pending[0]
-	s.pending = s.pending[1:]
-	s.running++
-	defer func() { s.running-- }()
+	// idle goroutines come last, and only if nothing else is runnable
+	var busy, idle []*gor
+	for _, g := range out {
+		if g.idle {
+			idle = append(idle, g)
+		} else {
+			busy = append(busy, g)
+		}
+	}
+	if len(busy) > 0 {
+		return busy
+	}
+	return idle
+}
+
+func (s *scheduler) pick(except *gor) *gor {
+	c := s.candidates(except)
+	if len(c) == 0 {
+		return nil
+	}
+	if len(c) > 1 && s.choose > 0 {
+		s.choose--
+		return c[s.i.choose(len(c))]
+	}
+	return c[0]
+}
+
+// transfer hands the processor to next and parks the calling goroutine until
+// somebody hands it back.
+func (s *scheduler) transfer(next *gor) {
+	me := s.cur
+	if next == me {
+		return
+	}
+	s.cur = next
+	s.wake(next)
+	s.park(me)
+}
+
+func (s *scheduler) wake(g *gor) {
+	if !g.started {
+		g.started = true
+		go s.body(g)
+		return
+	}
+	g.resume <- struct{}{}
+}
+
+func (s *scheduler) park(me *gor) {
+	<-me.resume
+	if me.id != 0 {
+		if s.killing {
+			panic(gorKill{})
+		}
+		return
+	}
+	if s.fatal != nil {
+		f := s.fatal
+		s.fatal = nil
+		if tp, ok := f.(targetPanic); ok {
+			panic(gorPanic{tp})
+		}
+		panic(f)
+	}
+}
+
+// yieldTo lets g run now; the caller stays runnable.
+func (s *scheduler) yieldTo(g *gor) {
+	s.transfer(g)
+}
+
+func (s *scheduler) body(g *gor) {
+	defer func() {
+		r := recover()
+		g.done = true
+		if s.killing {
+			s.killed <- struct{}{}
+			return
+		}
+		if r != nil {
+			if _, kill := r.(gorKill); !kill && s.fatal == nil {
+				s.fatal = r
+			}
+		}
+		s.leave(g)
+	}()
 	call(s.i, nil, 0, g.fn, g.args)
-	return true
 }
 
+// leave: the calling goroutine is finished (or must hand a fatal event to the
+// main goroutine); pass the processor on without parking.
+func (s *scheduler) leave(g *gor) {
+	main := s.gors[0]
+	if s.fatal != nil {
+		s.cur = main
+		s.wake(main)
+		return
+	}
+	next := s.pick(g)
+	if next == nil {
+		if !s.draining {
+			s.fatal = pathEnd{reason: "deadlock", detail: "all goroutines are blocked: " + s.blockedReport()}
+		}
+		next = main
+	}
+	s.cur = next
+	s.wake(next)
+}
+
+func (s *scheduler) blockedReport() string {
+	r := ""
+	for _, g := range s.gors {
+		if !g.done && g.ready != nil {
+			r += fmt.Sprintf("[g%d %s] ", g.id, g.what)
+		}
+	}
+	return r
+}
+
+// block parks the current goroutine until ready() holds, running others meanwhile.
+func (s *scheduler) block(what string, ready func() bool) {
+	me := s.cur
+	for !ready() {
+		me.ready, me.what = ready, what
+		next := s.pick(me)
+		if next == nil {
+			me.ready = nil
+			dl := pathEnd{reason: "deadlock", detail: what + "; all goroutines are blocked: " + s.blockedReport()}
+			if me.id == 0 {
+				panic(dl)
+			}
+			if s.draining {
+				// the harness is over: goroutines that wait forever are not an event
+				me.ready = func() bool { return false }
+				s.transfer(s.gors[0])
+				continue
+			}
+			s.fatal = dl
+			me.ready = func() bool { return false }
+			s.transfer(s.gors[0])
+			continue
+		}
+		s.transfer(next)
+	}
+	me.ready, me.what, me.recvWait = nil, "", nil
+}
+
+// drain: the harness entry has returned; let the other goroutines run until
+// each of them is finished or blocked for good.
 func (s *scheduler) drain() {
-	for s.runPending() {
+	main := s.gors[0]
+	s.draining = true
+	for {
+		next := s.pick(main)
+		if next == nil {
+			return
+		}
+		main.ready = func() bool { return false }
+		s.transfer(next)
+		main.ready = nil
 	}
 }
+
+// killAll unwinds every parked goroutine (the path is over).
+func (s *scheduler) killAll() {
+	s.killing = true
+	for _, g := range s.gors[1:] {
+		if g.done {
+			continue
+		}
+		if !g.started {
+			g.done = true
+			continue
+		}
+		s.cur = g
+		g.resume <- struct{}{}
+		<-s.killed
+	}
+}
+
+func (s *scheduler) receiverWaiting(ch *channel) bool {
+	for _, g := range s.gors {
+		if g.done || g == s.cur || g.ready == nil {
+			continue
+		}
+		for _, c := range g.recvWait {
+			if c == ch {
+				return true
+			}
+		}
+	}
+	return false
+}
+
+// ---------------------------------------------------------------- channels
 
 func (i *interpreter) chanSend(ch *channel, v value) {
 	if ch == nil {
-		unsup("send on nil channel (blocks forever)")
+		i.sched.block("send on nil channel", func() bool { return false })
 	}
 	if ch.closed {
 		panic(targetPanic{runtime: true, msg: "send on closed channel"})
 	}
+	s := i.sched
+	if ch.cap > 0 {
+		if len(ch.buf) >= ch.cap {
+			s.block("send on full channel", func() bool { return len(ch.buf) < ch.cap || ch.closed })
+			if ch.closed {
+				panic(targetPanic{runtime: true, msg: "send on closed channel"})
+			}
+		}
+		ch.buf = append(ch.buf, copyVal(v))
+		return
+	}
+	// unbuffered: offer the value, then wait until a receiver has taken it
+	ticket := ch.sent
+	ch.sent++
 	ch.buf = append(ch.buf, copyVal(v))
+	if ch.recvd <= ticket {
+		s.block("send on unbuffered channel", func() bool { return ch.recvd > ticket || ch.closed })
+		if ch.recvd <= ticket {
+			panic(targetPanic{runtime: true, msg: "send on closed channel"})
+		}
+	}
+}
+
+func (ch *channel) take() value {
+	v := ch.buf[0]
+	ch.buf = ch.buf[1:]
+	ch.recvd++
+	return v
 }
 
 func (i *interpreter) chanRecv(ch *channel, instr *ssa.UnOp) value {
+	s := i.sched
 	if ch == nil {
-		unsup("receive from nil channel (blocks forever)")
+		s.block("receive from nil channel", func() bool { return false })
 	}
-	for len(ch.buf) == 0 && !ch.closed {
-		if !i.sched.runPending() {
-			panic(pathEnd{reason: "deadlock", detail: "receive on empty channel with no runnable goroutine at " + i.posOf(instr)})
-		}
+	if len(ch.buf) == 0 && !ch.closed {
+		s.cur.recvWait = []*channel{ch}
+		s.block("receive on empty channel at "+i.posOf(instr), func() bool { return len(ch.buf) > 0 || ch.closed })
 	}
 	var v value
 	ok := false
 	if len(ch.buf) > 0 {
-		v = ch.buf[0]
-		ch.buf = ch.buf[1:]
+		v = ch.take()
 		ok = true
 	} else {
 		v = zero(instr.X.Type().Underlying().(*types.Chan).Elem())
@@ -87,9 +357,18 @@ func (i *interpreter) chanRecv(ch *channel, instr *ssa.UnOp) value {
 }
 
 func (i *interpreter) doSelect(fr *frame, instr *ssa.Select) value {
+	s := i.sched
+	chans := make([]*channel, len(instr.States))
+	var recvs []*channel
+	for k, st := range instr.States {
+		chans[k], _ = fr.get(st.Chan).(*channel)
+		if st.Dir == types.RecvOnly && chans[k] != nil {
+			recvs = append(recvs, chans[k])
+		}
+	}
 	ready := func() int {
 		for k, st := range instr.States {
-			ch, _ := fr.get(st.Chan).(*channel)
+			ch := chans[k]
 			if ch == nil {
 				continue
 			}
@@ -98,31 +377,43 @@ func (i *interpreter) doSelect(fr *frame, instr *ssa.Select) value {
 					return k
 				}
 			} else {
-				return k
+				if ch.closed {
+					return k // panics below, as in Go
+				}
+				if ch.cap > 0 && len(ch.buf) < ch.cap {
+					return k
+				}
+				if ch.cap == 0 && s.receiverWaiting(ch) && len(ch.buf) == 0 {
+					return k
+				}
 			}
 		}
 		return -1
 	}
 	chosen := ready()
-	for chosen < 0 && instr.Blocking {
-		if !i.sched.runPending() {
-			panic(pathEnd{reason: "deadlock", detail: "select with no ready case at " + i.posOf(instr)})
-		}
+	if chosen < 0 && instr.Blocking {
+		s.cur.recvWait = recvs
+		s.block("select at "+i.posOf(instr), func() bool { return ready() >= 0 })
 		chosen = ready()
 	}
 	recvOk := false
 	var recv value
 	if chosen >= 0 {
 		st := instr.States[chosen]
-		ch := fr.get(st.Chan).(*channel)
+		ch := chans[chosen]
 		if st.Dir == types.RecvOnly {
 			if len(ch.buf) > 0 {
-				recv = ch.buf[0]
-				ch.buf = ch.buf[1:]
+				recv = ch.take()
 				recvOk = true
 			}
 		} else {
-			i.chanSend(ch, fr.get(st.Send))
+			if ch.closed {
+				panic(targetPanic{runtime: true, msg: "send on closed channel"})
+			}
+			ch.buf = append(ch.buf, copyVal(fr.get(st.Send)))
+			if ch.cap == 0 {
+				ch.sent++ // handed to the waiting receiver; the sender does not wait
+			}
 		}
 	}
 	r := tuple{int64(chosen), recvOk}
@@ -138,4 +429,23 @@ func (i *interpreter) doSelect(fr *frame, instr *ssa.Select) value {
 		}
 	}
 	return r
+}
+
+// gosched: the current goroutine stays runnable but lets another one run now.
+func (s *scheduler) gosched() {
+	me := s.cur
+	if next := s.pick(me); next != nil {
+		s.transfer(next)
+	}
+}
+
+// idleWait: the current goroutine continues only when no other goroutine can
+// run (it "sleeps long enough" for everybody else to get as far as they can).
+func (s *scheduler) idleWait() {
+	me := s.cur
+	me.idle = true
+	if next := s.pick(me); next != nil {
+		s.transfer(next)
+	}
+	me.idle = false
 }
